@@ -35,7 +35,7 @@ def special_traces(pos, graph):
     for a, b, c in itertools.product(sel, repeat=3):
         if abs(a - b) >= 2 or abs(b - c) >= 2:
             out.append([near[a], near[b], near[c]])
-    return out
+    return ms.axis_traces(graph) + out
 
 
 def span_idx(n, four=False):
@@ -86,7 +86,7 @@ def traces_of(case, graph):
         near = [(p[0] + 0.13, p[1] - 0.11) for p in P]
         n = len(P) - 1
         idx = [(0, n // 2, n), (0, n, 1), (1, n - 1, 0), (0, 1, n), (n, n // 2, 0), (n // 2, 0, n - 1)]
-        return [[near[min(i, n)] for i in t] for t in idx]
+        return [t for t in ms.axis_traces(graph) if len(t) == 3] + [[near[min(i, n)] for i in t] for t in idx]
     if case["slice"] == "hist":
         return [t for t in trace_set(pos, case["T"], n_obs=3, with_far=(case.get("tier") == "thorough")) if len(t) == case["T"]]
     return trace_set(pos, case["T"], n_obs=4, with_far=False)
